@@ -69,13 +69,35 @@ pub struct World {
 /// an API call, carried out now or from a task that wakes at the op's instant
 enum ApiCall { Bootstrapped(usize), Search(usize, Vec<u8>, bool), State, Contacts, Addr }
 
+thread_local! {
+    /// the tasks waiting in `bootstrapped()`: (node address, waiter number, handle, cancelled)
+    static WAITERS: std::cell::RefCell<Vec<(SocketAddr, usize, tokio::task::AbortHandle, bool)>> = std::cell::RefCell::new(vec![]);
+}
+
+/// `api <k> cancel`: the caller of the oldest `bootstrapped()` call of the node that is still pending
+/// gives up (its future is dropped, as under a time-out); nothing tells the handler
+fn cancel_oldest_waiter(me: SocketAddr) -> Option<usize> {
+    WAITERS.with(|w| {
+        let mut w = w.borrow_mut();
+        let mut best: Option<usize> = None;
+        for (idx, e) in w.iter().enumerate() {
+            if e.0 == me && !e.3 && !e.2.is_finished() && best.map(|b| e.1 < w[b].1).unwrap_or(true) { best = Some(idx) }
+        }
+        let idx = best?;
+        w[idx].2.abort();
+        w[idx].3 = true;
+        Some(w[idx].1)
+    })
+}
+
 fn do_api(dht: MainlineDht, me: SocketAddr, call: ApiCall) {
     match call {
         ApiCall::Bootstrapped(i) => {
-            tokio::spawn(async move {
+            let h = tokio::spawn(async move {
                 let r = dht.bootstrapped().await;
                 btdht::verif::trace(|| format!("{me} X resolved {i} {r}"));
             });
+            WAITERS.with(|w| w.borrow_mut().push((me, i, h.abort_handle(), false)));
         }
         ApiCall::Search(sid, ih, ann) => {
             let mut stream = dht.search(id_of(&ih), ann);
@@ -508,7 +530,7 @@ impl World {
             "multi" => node_of(1).map(|k| self.nodes.contains_key(&k)).unwrap_or(false) && w.len() >= 5
                 && w[2..w.len() - 1].split(|x| *x == "||").all(|item| self.datagram_of(item).is_some()),
             "api" => node_of(1).map(|k| self.nodes.contains_key(&k)).unwrap_or(false) && match w.get(2).copied() {
-                Some("bootstrapped") | Some("state") | Some("contacts") | Some("addr") => w.len() == 4,
+                Some("bootstrapped") | Some("state") | Some("contacts") | Some("addr") | Some("cancel") => w.len() == 4,
                 Some("search") => w.len() == 6 && w.get(3).and_then(|x| unhex(x)).map(|x| x.len() == 20).unwrap_or(false),
                 _ => false,
             },
@@ -633,6 +655,15 @@ impl World {
                 let Some(k) = w.get(1).and_then(|x| x.parse::<usize>().ok()) else { return "bad-op".into() };
                 if !self.nodes.contains_key(&k) { return "bad-op".into() }
                 st.hit(&format!("api_{}", w.get(2).copied().unwrap_or("")));
+                if w.get(2) == Some(&"cancel") {
+                    if cancel_oldest_waiter(self.nodes[&k].sock.local).is_some() { st.hit("api_cancel_effective"); }
+                    for _ in 0..3 { tokio::task::yield_now().await; }
+                    self.settle(&mut raw).await;
+                    let evs = self.canon(raw);
+                    let line = self.render(&evs);
+                    self.last = evs;
+                    return if line.is_empty() { "-".into() } else { line };
+                }
                 let Some(call) = self.api_call(k, &w) else { return "bad-op".into() };
                 let n = &self.nodes[&k];
                 do_api(n.dht.clone(), n.sock.local, call);
@@ -648,7 +679,7 @@ impl World {
 }
 
 impl Drop for World {
-    fn drop(&mut self) { btdht::verif::trace_disable(); }
+    fn drop(&mut self) { btdht::verif::trace_disable(); WAITERS.with(|w| w.borrow_mut().clear()); }
 }
 
 impl Engine for NodeEngine {
